@@ -68,8 +68,9 @@ theorem c14_canonical_names_fixed (f : Bytes) (hf : f ∈ genCfg.fieldNames) : c
 
 /-- `c14_request_roundtrip`: for EVERY request the writer can emit — any method token (not
     starting with `$`), any URL that `net/url` prints without blanks and parses back, any header
-    map whose written form consists of well-formed field lines with pairwise different canonical
-    names, any body up to the limit — and EVERY continuation `rest` of the stream:
+    map whose written form consists of well-formed field lines (token names; values of TEXT,
+    bytes above 0x7F included, that begin and end with a printable non-blank ASCII character)
+    with pairwise different canonical names, any body up to the limit — and EVERY continuation `rest` of the stream:
     `ReadRequest` returns the same method, URL, protocol "RTSP/1.0", the header with canonical
     names / joined values / Content-Length set, and the same body, and leaves the stream exactly
     at `rest`. -/
@@ -283,6 +284,12 @@ theorem c14_fixed_example :
     resultVal (readPacket genCfg [0, 1, 2, 3]
       [0x24, 0, 0, 20, 0x90, 96, 0, 1, 0, 0, 0, 1, 0, 0, 0, 2, 0x10, 0x00, 0, 1, 5, 200, 1, 2, 0x24]) = some (none, [0x24]) := by
   decide
+
+/-- the value grammar of the round-trip theorems (`HeaderOK` → `fieldValueOK`) is TEXT: bytes
+    above 0x7F are allowed inside a value (here UTF-8 `é`), its first and last character are
+    printable ASCII other than blank -/
+example : fieldValueOK (IpcHub.RtspSpec.ascii "cam\u00e9ra 1") = true ∧ fieldValueOK (IpcHub.RtspSpec.ascii "caf\u00e9") = false ∧
+    fieldValueOK (IpcHub.RtspSpec.ascii " x") = false := by decide
 
 /-- non-vacuity: an ordinary header satisfies `HeaderOK` (the other hypotheses of the round-trip
     theorems are plain size bounds and `net/url` laws) -/
